@@ -141,6 +141,9 @@ type viol struct {
 
 type harnessErr string
 
+// abortCase ends a case early after a violation has been recorded.
+type abortCase struct{}
+
 func hfail(f string, a ...interface{}) { panic(harnessErr(fmt.Sprintf(f, a...))) }
 
 type cse struct {
@@ -158,7 +161,8 @@ type cse struct {
 	viols   []viol
 	seq     int
 	closed  bool
-	blocked bool // the timed call was seen pending by the probe
+	blocked bool          // the timed call was seen pending by the probe
+	lastEl  time.Duration // duration of the last untimed Send
 }
 
 func (c *cse) add(key string, retry bool, f string, a ...interface{}) {
@@ -322,7 +326,9 @@ func (c *cse) send(on mangos.Context, tag string, d time.Duration) error {
 	c.prepSend(on)
 	c.setOpt(on, mangos.OptionSendDeadline, d)
 	m := c.newMsg(c.body(tag))
+	t0 := time.Now()
 	err := on.SendMsg(m)
+	c.lastEl = time.Since(t0)
 	if err != nil {
 		m.Free()
 	}
@@ -350,8 +356,17 @@ func (c *cse) fill(on mangos.Context, wq int) int {
 		switch err {
 		case nil:
 			n++
-			if wq >= 0 && n > wq+1 {
-				hfail("%s: %d Sends accepted with WRITEQ-LEN=%d and a stuck peer", c.kind, n, wq)
+			peer := "none"
+			if c.p != nil {
+				peer = "blocked"
+			}
+			if cp := capacity(c.pat, wq, peer); n > cp {
+				if c.lastEl >= fillProbe {
+					// it waited for the whole deadline and then reported success with nowhere to put the message
+					c.add("send-wrong-error", false, "%s Send #%d with deadline %v (WRITEQ-LEN %d, peer %s: room for %d) blocked for %v and then returned nil, want ErrSendTimeout", c.kind, n, fillProbe, wq, peer, cp, c.lastEl)
+					panic(abortCase{})
+				}
+				hfail("%s: %d Sends accepted at once with WRITEQ-LEN=%d and peer %s (room for %d)", c.kind, n, wq, peer, cp)
 			}
 		case mangos.ErrSendTimeout:
 			if stuck {
@@ -520,6 +535,9 @@ func exec(fn func(c *cse)) (c *cse, herr error) {
 		if r != nil {
 			if h, ok := r.(harnessErr); ok {
 				herr = errors.New(string(h))
+				return
+			}
+			if _, ok := r.(abortCase); ok {
 				return
 			}
 			panic(r)
